@@ -222,6 +222,26 @@ def stream_mac(rep, prog, f, tag):
             found["ciphertext body"] = c
         elif le_fed.get(root) == {"ad", "ct"} and not narrowed:
             found["|AD| and |body| as little-endian lengths"] = c
+    # the byte of the tag block that comes from the wire is absorbed verbatim: the last store into the
+    # block before the MAC update writes ciphertext[0] itself (no masking / re-encoding, which would let
+    # distinct wire bytes produce the same MAC input)
+    tb = found.get("encrypted tag block (64 bytes, first byte from ciphertext[0])")
+    if tb is not None:
+        from ..expr import expr_of_operand as _eo, evaluate as _ev, deep_repr as _dr
+        root = cm.view_info(f, list(operand_locals(tb.args[1]))[0])[0]
+        stores = [(b, st) for b, i, st in f.assigns() if st["place"]["l"] == root and st["place"]["p"] and b in f.dom.get(tb.bb, ())]
+        last = [x for x in stores if not any(x[0] in f.dom.get(y[0], ()) and x[0] != y[0] for y in stores)]
+        okv = False
+        why = "no store into the tag block dominates the MAC update"
+        if last:
+            b_, st_ = last[-1]
+            # several stores in the same block: take the last statement
+            same = [x for x in stores if x[0] == b_]
+            st_ = same[-1][1]
+            e = _eo(f, st_["rv"]["x"]) if st_["rv"]["k"] == "use" else None
+            okv = e is not None and e.k == "index" and e.a.k == "local" and e.a.a == ct and _ev(e.b, {}) == 0
+            why = "last store into the tag block before the MAC update writes %s" % (_dr(e) if e is not None else st_["rv"]["k"])
+        rep.ob("STREAM-MAC", "%s|tag byte absorbed verbatim%s" % (f.path, tag), okv, why, loc=tb.loc())
     for name, c in found.items():
         rep.ob("STREAM-MAC", "%s|%s%s" % (f.path, name, tag), c is not None,
                ("Poly1305::update at %s dominates the tag comparison and absorbs it" % c.loc()) if c
